@@ -1,4 +1,4 @@
-From Coq Require Import ZArith NArith List.
+From Coq Require Import ZArith NArith List Bool.
 From PSO Require Import Base.PyBytes Base.PyBytesFacts Framing.Model Framing.Proofs Framing.Proofs2.
 Import ListNotations.
 Open Scope Z_scope.
@@ -9,7 +9,7 @@ Theorem C13_length_field_roundtrip :
 Proof. exact unpack_pack_i. Qed.
 Print Assumptions C13_length_field_roundtrip.
 
-(* feed dec c chunk = parse_all dec (set_rbuf c (rbuf c ++ chunk)) is exactly what one
+(* feed dec now c chunk = parse_all dec now (set_rbuf c (rbuf c ++ chunk)) is exactly what one
    __processConnection call with the READ flag does when recv returns the non-empty chunks bs
    (then EAGAIN or end of script), no error flag, no timeout, nothing to write *)
 Theorem C13_feed_is_step :
@@ -21,26 +21,27 @@ Theorem C13_feed_is_step :
     Forall (fun b => b <> []) bs ->
     match tl with [] => True | REagain :: _ => True | _ => False end ->
     step dec c (EPoll now true wr false false ss (map (fun b => RChunk b false) bs ++ tl))
-    = feed dec (set_last_read c now) (concat bs).
+    = feed dec now (set_last_read c now) (concat bs).
 Proof. exact step_poll_is_feed. Qed.
 Print Assumptions C13_feed_is_step.
 
 (* all message lists, all fragmentations of the frame stream: exactly ms, in order, buffer
    empty, connection state untouched, no oracle miss *)
 Theorem C13_reader :
-  forall (dec : bytes -> dres) (payload : N -> bytes) (ms : list N) (cs : list bytes) (c : conn),
+  forall (dec : bytes -> dres) (payload : N -> bytes) (now : Z) (ms : list N) (cs : list bytes)
+         (c : conn),
     (forall m, In m ms -> dec (payload m) = DOk m /\ zlen (payload m) < two31) ->
     rbuf c = [] ->
     concat cs = concat (map (fun m => frame (payload m)) ms) ->
-    feed_all dec c cs =
-      (c, {| accepted := []; delivered := ms; disc_calls := 0; miss := false |}).
+    feed_all dec now c cs =
+      (c, {| accepted := []; delivered := ms; disc_calls := 0; conn_calls := 0; miss := false |}).
 Proof. exact C13_reader_thm. Qed.
 Print Assumptions C13_reader.
 
 (* after any prefix of the stream, in any fragmentation: the first k messages, where the bytes
    that arrived are k whole frames plus a strict prefix (tail) of frame k; rbuf = tail *)
 Theorem C13_reader_prefix :
-  forall (dec : bytes -> dres) (payload : N -> bytes) (ms : list N) (cs : list bytes)
+  forall (dec : bytes -> dres) (payload : N -> bytes) (now : Z) (ms : list N) (cs : list bytes)
          (rest : bytes) (c : conn),
     (forall m, In m ms -> dec (payload m) = DOk m /\ zlen (payload m) < two31) ->
     rbuf c = [] ->
@@ -52,15 +53,15 @@ Theorem C13_reader_prefix :
       | [] => tail = []
       | m :: _ => exists s, s <> [] /\ tail ++ s = frame (payload m)
       end /\
-      feed_all dec c cs =
+      feed_all dec now c cs =
         (set_rbuf c tail,
-         {| accepted := []; delivered := firstn k ms; disc_calls := 0; miss := false |}).
+         {| accepted := []; delivered := firstn k ms; disc_calls := 0; conn_calls := 0; miss := false |}).
 Proof. exact C13_reader_prefix_thm. Qed.
 Print Assumptions C13_reader_prefix.
 
 (* the same for every such decomposition (so k and tail are determined by the bytes) *)
 Theorem C13_reader_prefix_unique :
-  forall (dec : bytes -> dres) (payload : N -> bytes) (ms : list N) (cs : list bytes)
+  forall (dec : bytes -> dres) (payload : N -> bytes) (now : Z) (ms : list N) (cs : list bytes)
          (k : nat) (tail : bytes) (c : conn),
     (forall m, In m ms -> dec (payload m) = DOk m /\ zlen (payload m) < two31) ->
     rbuf c = [] -> (k <= length ms)%nat ->
@@ -69,9 +70,9 @@ Theorem C13_reader_prefix_unique :
     | [] => tail = []
     | m :: _ => exists s, s <> [] /\ tail ++ s = frame (payload m)
     end ->
-    feed_all dec c cs =
+    feed_all dec now c cs =
       (set_rbuf c tail,
-       {| accepted := []; delivered := firstn k ms; disc_calls := 0; miss := false |}).
+       {| accepted := []; delivered := firstn k ms; disc_calls := 0; conn_calls := 0; miss := false |}).
 Proof. exact C13_reader_prefix_unique_thm. Qed.
 Print Assumptions C13_reader_prefix_unique.
 
@@ -89,7 +90,7 @@ Theorem C13_reader_on_run :
         = (c', os) /\
       st c' = Connected /\ rbuf c' = [] /\ wbuf c' = wbuf c /\
       fold_right out_app no_out os =
-        {| accepted := []; delivered := ms; disc_calls := 0; miss := false |}.
+        {| accepted := []; delivered := ms; disc_calls := 0; conn_calls := 0; miss := false |}.
 Proof. exact C13_reader_on_run_thm. Qed.
 Print Assumptions C13_reader_on_run.
 
@@ -103,18 +104,21 @@ Theorem C13_writer :
     run dec c es = (c', os) ->
     concat (map accepted os) ++ wbuf c' = sent_of es /\
     st c' = Connected /\ rbuf c' = rbuf c /\
-    Forall (fun o => delivered o = [] /\ disc_calls o = 0%nat /\ miss o = false) os.
+    Forall (fun o => delivered o = [] /\ disc_calls o = 0%nat /\ conn_calls o = 0%nat /\ miss o = false) os.
 Proof. exact writer_invariant. Qed.
 Print Assumptions C13_writer.
 
-(* writer, ALL event sequences (errors, timeouts, reads, disconnects included): what the socket
-   accepted is a prefix of the frames handed to send(); while Connected the rest is the buffer *)
+(* writer, ALL event sequences of one connection lifetime (errors, timeouts, reads, explicit
+   disconnects included; no reconnecting callback, no connect()): what the socket accepted is a
+   prefix of the frames handed to send(); while not DISCONNECTED the rest is the buffer *)
 Theorem C13_writer_any_schedule :
   forall (dec : bytes -> dres) (es : list event) (c c' : conn) (os : list outs),
+    reconnect c = false ->
+    Forall (fun e => match e with EConnect _ => False | _ => True end) es ->
     run dec c es = (c', os) ->
     exists rest,
       concat (map accepted os) ++ rest = wbuf c ++ sent_of es /\
-      (st c' = Connected -> wbuf c' = rest).
+      (st c' <> Disconnected -> wbuf c' = rest).
 Proof. exact writer_any. Qed.
 Print Assumptions C13_writer_any_schedule.
 
@@ -126,9 +130,9 @@ Theorem C13_writer_failure_send :
     match f with SNeg | SErr => True | _ => False end ->
     (total ks < length (wbuf c ++ frame p))%nat ->
     step dec c (ESend now p (map SAccept ks ++ f :: post)) =
-      ({| st := Disconnected; rbuf := []; wbuf := []; last_read := last_read c; timeout := timeout c |},
+      (if reconnect c then connect now c else cleared c,
        {| accepted := firstn (total ks) (wbuf c ++ frame p); delivered := [];
-          disc_calls := 1; miss := false |}).
+          disc_calls := 1; conn_calls := 0; miss := false |}).
 Proof. exact writer_failure_send. Qed.
 Print Assumptions C13_writer_failure_send.
 
@@ -139,8 +143,8 @@ Theorem C13_writer_failure_poll :
     match f with SNeg | SErr => True | _ => False end ->
     (total ks < length (wbuf c))%nat -> soerr = false ->
     step dec c (EPoll now rd true false soerr (map SAccept ks ++ f :: post) rs) =
-      ({| st := Disconnected; rbuf := []; wbuf := []; last_read := last_read c; timeout := timeout c |},
-       {| accepted := firstn (total ks) (wbuf c); delivered := []; disc_calls := 1; miss := false |}).
+      (if reconnect c then connect now c else cleared c,
+       {| accepted := firstn (total ks) (wbuf c); delivered := []; disc_calls := 1; conn_calls := 0; miss := false |}).
 Proof. exact writer_failure_poll. Qed.
 Print Assumptions C13_writer_failure_poll.
 
@@ -148,18 +152,18 @@ Theorem C13_writer_timeout_send :
   forall (dec : bytes -> dres) (c : conn) (now : Z) (p : bytes) (script : list sres),
     st c = Connected -> now - last_read c > timeout c ->
     step dec c (ESend now p script) =
-      ({| st := Disconnected; rbuf := []; wbuf := []; last_read := last_read c; timeout := timeout c |},
-       {| accepted := []; delivered := []; disc_calls := 1; miss := false |}).
+      (if reconnect c then connect now c else cleared c,
+       {| accepted := []; delivered := []; disc_calls := 1; conn_calls := 0; miss := false |}).
 Proof. exact writer_timeout_send. Qed.
 Print Assumptions C13_writer_timeout_send.
 
 Theorem C13_writer_timeout_poll :
   forall (dec : bytes -> dres) (c : conn) (now : Z) (rd wr soerr : bool) (ss : list sres)
          (rs : list rres),
-    st c = Connected -> now - last_read c > timeout c ->
+    st c = Connected -> reconnect c = false -> now - last_read c > timeout c ->
     step dec c (EPoll now rd wr false soerr ss rs) =
-      ({| st := Disconnected; rbuf := []; wbuf := []; last_read := last_read c; timeout := timeout c |},
-       {| accepted := []; delivered := []; disc_calls := 1; miss := false |}).
+      (cleared c,
+       {| accepted := []; delivered := []; disc_calls := 1; conn_calls := 0; miss := false |}).
 Proof. exact writer_timeout_poll. Qed.
 Print Assumptions C13_writer_timeout_poll.
 
@@ -167,10 +171,11 @@ Print Assumptions C13_writer_timeout_poll.
    bytes accepted so far, cut arbitrarily, fed to a reader: firstn k ms; all of ms once the
    sender (still up) has an empty write buffer *)
 Theorem C13_roundtrip :
-  forall (dec : bytes -> dres) (payload : N -> bytes) (decw : bytes -> dres)
+  forall (dec : bytes -> dres) (payload : N -> bytes) (decw : bytes -> dres) (now : Z)
          (es : list event) (ms : list N) (cw cw' : conn) (os : list outs)
          (cs : list bytes) (cr : conn),
-    wbuf cw = [] ->
+    wbuf cw = [] -> reconnect cw = false ->
+    Forall (fun e => match e with EConnect _ => False | _ => True end) es ->
     flat_map (fun e => match e with ESend _ p _ => [p] | _ => [] end) es = map payload ms ->
     (forall m, In m ms -> dec (payload m) = DOk m /\ zlen (payload m) < two31) ->
     run decw cw es = (cw', os) ->
@@ -182,28 +187,28 @@ Theorem C13_roundtrip :
        | [] => tail = []
        | m :: _ => exists s, s <> [] /\ tail ++ s = frame (payload m)
        end /\
-       feed_all dec cr cs =
+       feed_all dec now cr cs =
          (set_rbuf cr tail,
-          {| accepted := []; delivered := firstn k ms; disc_calls := 0; miss := false |})) /\
-    (st cw' = Connected -> wbuf cw' = [] ->
-     feed_all dec cr cs =
-       (cr, {| accepted := []; delivered := ms; disc_calls := 0; miss := false |})).
+          {| accepted := []; delivered := firstn k ms; disc_calls := 0; conn_calls := 0; miss := false |})) /\
+    (st cw' <> Disconnected -> wbuf cw' = [] ->
+     feed_all dec now cr cs =
+       (cr, {| accepted := []; delivered := ms; disc_calls := 0; conn_calls := 0; miss := false |})).
 Proof. exact C13_roundtrip_thm. Qed.
 Print Assumptions C13_roundtrip.
 
 (* good frames ms, then a frame with a negative length field or an undecodable payload, then
    anything: exactly ms delivered, then Disconnected, buffers dropped, onDisconnected once *)
 Theorem C13_bad_frame_disconnects :
-  forall (dec : bytes -> dres) (payload : N -> bytes) (c : conn) (ms : list N)
+  forall (dec : bytes -> dres) (payload : N -> bytes) (now : Z) (c : conn) (ms : list N)
          (bad rest : bytes),
     (forall m, In m ms -> dec (payload m) = DOk m /\ zlen (payload m) < two31) ->
     st c = Connected ->
     ((4 <= length bad)%nat /\ unpack_i bad < 0) \/
     (exists d, bad = pack_i (zlen d) ++ d /\ zlen d < two31 /\ dec d = DFail) ->
     rbuf c = concat (map (fun m => frame (payload m)) ms) ++ bad ++ rest ->
-    parse_all dec c =
-      ({| st := Disconnected; rbuf := []; wbuf := []; last_read := last_read c; timeout := timeout c |},
-       {| accepted := []; delivered := ms; disc_calls := 1; miss := false |}).
+    parse_all dec now c =
+      (if reconnect c then connect now c else cleared c,
+       {| accepted := []; delivered := ms; disc_calls := 1; conn_calls := 0; miss := false |}).
 Proof. exact C13_bad_frame_disconnects_thm. Qed.
 Print Assumptions C13_bad_frame_disconnects.
 
@@ -219,8 +224,8 @@ Theorem C13_bad_frame_disconnects_step :
     (exists d, bad = pack_i (zlen d) ++ d /\ zlen d < two31 /\ dec d = DFail) ->
     rbuf c ++ concat bs = concat (map (fun m => frame (payload m)) ms) ++ bad ++ rest ->
     step dec c (EPoll now true false false false [] (map (fun b => RChunk b false) bs ++ tl)) =
-      ({| st := Disconnected; rbuf := []; wbuf := []; last_read := now; timeout := timeout c |},
-       {| accepted := []; delivered := ms; disc_calls := 1; miss := false |}).
+      (if reconnect c then connect now c else cleared (set_last_read c now),
+       {| accepted := []; delivered := ms; disc_calls := 1; conn_calls := 0; miss := false |}).
 Proof. exact C13_bad_frame_disconnects_step_thm. Qed.
 Print Assumptions C13_bad_frame_disconnects_step.
 
@@ -232,19 +237,127 @@ Theorem C13_disconnected_ignores_poll :
 Proof. exact step_poll_disconnected. Qed.
 Print Assumptions C13_disconnected_ignores_poll.
 
-(* ... and under any events stays Disconnected, delivers and sends nothing, no second callback *)
+(* ... and under any events short of connect() stays Disconnected, delivers and sends nothing, no second callback *)
 Theorem C13_disconnected_stays_quiet :
   forall (dec : bytes -> dres) (es : list event) (c : conn),
     st c = Disconnected ->
+    Forall (fun e => match e with EConnect _ => False | _ => True end) es ->
     st (fst (run dec c es)) = Disconnected /\
-    Forall (fun o => accepted o = [] /\ delivered o = [] /\ disc_calls o = 0%nat /\ miss o = false)
+    Forall (fun o => accepted o = [] /\ delivered o = [] /\ disc_calls o = 0%nat /\
+                     conn_calls o = 0%nat /\ miss o = false)
            (snd (run dec c es)).
 Proof. exact run_disconnected. Qed.
 Print Assumptions C13_disconnected_stays_quiet.
 
 (* the fuel of parse_all is never what stops the loop *)
 Theorem C13_parse_fuel_sufficient :
-  forall (dec : bytes -> dres) (c : conn) (extra : nat),
-    parse_loop dec (S (length (rbuf c))) c = parse_loop dec (S (length (rbuf c)) + extra) c.
+  forall (dec : bytes -> dres) (now : Z) (c : conn) (extra : nat),
+    parse_loop dec now (S (length (rbuf c))) c = parse_loop dec now (S (length (rbuf c)) + extra) c.
 Proof. exact parse_all_fuel_sufficient. Qed.
 Print Assumptions C13_parse_fuel_sufficient.
+
+(* ---- connection lifetimes: disconnect, (re-entrant) reconnect ---- *)
+
+(* whatever the state and the event: if onDisconnected ran during it, both buffers are empty when
+   the handler returns -- with or without a callback that reconnects re-entrantly *)
+Theorem C13_disconnect_clears :
+  forall (dec : bytes -> dres) (c : conn) (e : event) (c' : conn) (o : outs),
+    step dec c e = (c', o) -> (0 < disc_calls o)%nat -> rbuf c' = [] /\ wbuf c' = [].
+Proof. exact step_disconnect_clears. Qed.
+Print Assumptions C13_disconnect_clears.
+
+(* in particular a read burst bs (any bytes: whole frames, a partial frame, 1-3 header bytes) that
+   ends in ECONNRESET / EOF / SO_ERROR: nothing of it is delivered, nothing of it is in the buffer of
+   the dead connection or of the one the callback opened *)
+Theorem C13_read_burst_disconnect :
+  forall (dec : bytes -> dres) (c : conn) (now : Z) (bs : list bytes) (tl : list rres),
+    st c = Connected -> now - last_read c <= timeout c ->
+    Forall (fun b => b <> []) bs ->
+    match tl with
+    | RErr :: _ => True
+    | RChunk [] _ :: _ => True
+    | RChunk _ true :: _ => True
+    | _ => False
+    end ->
+    step dec c (EPoll now true false false false [] (map (fun b => RChunk b false) bs ++ tl))
+    = (set_last_read (if reconnect c then connect now c else cleared c) now,
+       {| accepted := []; delivered := []; disc_calls := 1; conn_calls := 0; miss := false |}).
+Proof. exact read_burst_disconnect. Qed.
+Print Assumptions C13_read_burst_disconnect.
+
+(* the CONNECTING branch of __processConnection *)
+Theorem C13_connecting_establishes :
+  forall (dec : bytes -> dres) (c : conn) (now : Z) (rd wr : bool) (ss : list sres) (rs : list rres),
+    st c = Connecting -> now - last_read c <= timeout c -> rd || wr = true ->
+    step dec c (EPoll now rd wr false false ss rs) =
+      ({| st := Connected; rbuf := rbuf c; wbuf := wbuf c; last_read := now;
+          timeout := timeout c; reconnect := reconnect c |},
+       {| accepted := []; delivered := []; disc_calls := 0; conn_calls := 1; miss := false |}).
+Proof. exact step_establish. Qed.
+Print Assumptions C13_connecting_establishes.
+
+(* whatever the connection held and whatever event e made onDisconnected run: if the callback
+   reconnected, the new connection receives the stream sent on it exactly (C13_reader_on_run for the
+   new connection), regardless of what was received before the disconnect *)
+Theorem C13_reader_after_reconnect :
+  forall (dec : bytes -> dres) (payload : N -> bytes) (ms : list N) (ps : list (Z * bytes))
+         (c : conn) (e : event) (c1 : conn) (o1 : outs),
+    (forall m, In m ms -> dec (payload m) = DOk m /\ zlen (payload m) < two31) ->
+    step dec c e = (c1, o1) -> (0 < disc_calls o1)%nat ->
+    concat (map snd ps) = concat (map (fun m => frame (payload m)) ms) ->
+    (st c1 = Connecting ->
+     forall t0 rd wr ss rs,
+       t0 - last_read c1 <= timeout c1 -> rd || wr = true ->
+       polls_ok t0 (timeout c1) ps ->
+       exists c' os,
+         run dec c1 (EPoll t0 rd wr false false ss rs ::
+                     map (fun p => EPoll (fst p) true false false false [] [RChunk (snd p) false]) ps)
+           = (c', os) /\
+         st c' = Connected /\ rbuf c' = [] /\
+         fold_right out_app no_out os =
+           {| accepted := []; delivered := ms; disc_calls := 0; conn_calls := 1; miss := false |}) /\
+    (st c1 = Connected ->
+     polls_ok (last_read c1) (timeout c1) ps ->
+     exists c' os,
+       run dec c1 (map (fun p => EPoll (fst p) true false false false [] [RChunk (snd p) false]) ps)
+         = (c', os) /\
+       st c' = Connected /\ rbuf c' = [] /\
+       fold_right out_app no_out os =
+         {| accepted := []; delivered := ms; disc_calls := 0; conn_calls := 0; miss := false |}).
+Proof. exact C13_reader_after_reconnect_thm. Qed.
+Print Assumptions C13_reader_after_reconnect.
+
+(* the same after an explicit connect() on any connection, whatever it held *)
+Theorem C13_reader_after_connect :
+  forall (dec : bytes -> dres) (payload : N -> bytes) (ms : list N) (ps : list (Z * bytes))
+         (c : conn) (now t0 : Z) (rd wr : bool) (ss : list sres) (rs : list rres),
+    (forall m, In m ms -> dec (payload m) = DOk m /\ zlen (payload m) < two31) ->
+    t0 - now <= timeout c -> rd || wr = true ->
+    polls_ok t0 (timeout c) ps ->
+    concat (map snd ps) = concat (map (fun m => frame (payload m)) ms) ->
+    exists c' os,
+      run dec c (EConnect now :: EPoll t0 rd wr false false ss rs ::
+                 map (fun p => EPoll (fst p) true false false false [] [RChunk (snd p) false]) ps)
+        = (c', os) /\
+      st c' = Connected /\ rbuf c' = [] /\
+      fold_right out_app no_out os =
+        {| accepted := []; delivered := ms; disc_calls := 0; conn_calls := 1; miss := false |}.
+Proof. exact C13_reader_after_connect_thm. Qed.
+Print Assumptions C13_reader_after_connect.
+
+(* a quirk of the code, modelled as it is: a timeout whose callback reconnects does not end the
+   handler (the test is `state == DISCONNECTED`), and an event with READ or WRITE then marks the
+   fresh connection CONNECTED in the same call *)
+Theorem C13_timeout_poll_reconnect :
+  forall (dec : bytes -> dres) (c : conn) (now : Z) (rd wr soerr : bool) (ss : list sres)
+         (rs : list rres),
+    st c = Connected -> reconnect c = true -> now - last_read c > timeout c ->
+    step dec c (EPoll now rd wr false soerr ss rs) =
+      if rd || wr
+      then ({| st := Connected; rbuf := []; wbuf := []; last_read := now;
+               timeout := timeout c; reconnect := true |},
+            {| accepted := []; delivered := []; disc_calls := 1; conn_calls := 1; miss := false |})
+      else (connect now c,
+            {| accepted := []; delivered := []; disc_calls := 1; conn_calls := 0; miss := false |}).
+Proof. exact timeout_poll_reconnect. Qed.
+Print Assumptions C13_timeout_poll_reconnect.
